@@ -10,9 +10,11 @@ Sections
               unequal column lengths, letters outside the alphabet and ill-typed columns must raise (or convert)
   programs    every schema (one per column kind: [k:int, v:kind]; a wide table with all kinds; nested tables; every
               class of bionumpy.datatypes) x n = 0..3 rows x every sequence of table operations up to the depth of
-              the tier (mask, slice, integer-array index, concatenate, sort_by, replace, add_fields, and the three
-              round trips rows / dict / pandas), all observation channels after every step, operands re-read after
-              every step (unchanged)
+              the tier (mask, slice, integer-array index, concatenate, sort_by, replace, add_fields, and the round
+              trips from_entry_tuples(tolist) / from_dict(todict) / from_data_frame(topandas)); after every step the
+              result and the operands are read back; every table reached is observed through t[i], iteration,
+              tolist/toiter, todict and topandas.  Tables are rebuilt (program re-run) for every use, because reading a
+              table makes the library materialise lazy ragged views inside it and would hide what user code sees
   datatypes   the field names / kinds of every class in bionumpy.datatypes against a table written from the docs
 """
 import copy
@@ -139,10 +141,6 @@ class Field:
         else:
             self.kind, self.sub = kind, None
         self.desc = [name, kind]
-
-    @property
-    def family(self):
-        return self.kind
 
 
 class Sch:
@@ -493,11 +491,14 @@ def blame(sch, bad, got=None, want=None):
 class Ctx:
     """one enumeration context: collector + case description for failures"""
 
-    def __init__(self, col, sch, base_rows):
-        self.col, self.sch0, self.base_rows = col, sch, base_rows
+    def __init__(self, col, sch, base_rows, context=False):
+        self.col, self.sch0, self.base_rows, self.context = col, sch, base_rows, context
 
     def case(self, program, final=None):
-        return {"section": "program", "schema": self.sch0.desc, "rows": self.base_rows, "program": program, "final": final}
+        c = {"section": "program", "schema": self.sch0.desc, "rows": self.base_rows, "program": program, "final": final}
+        if self.context:
+            c["context"] = True
+        return c
 
 
 def loose_eq(a, b):
@@ -518,13 +519,16 @@ def compare(ctx, opname, qual, sch, got, want, case, what="wrong-rows"):
         what = "numeric-type-changed"          # same numbers, int <-> float <-> bool
         who = "ragged-numeric" if who in RAGGED_NUM else who
         qual = ""
-    sig = "%s:%s:%s%s" % (opname, who, what if how == "rows" else "wrong-row-count", qual)
+    sig = "%s%s:%s:%s%s" % ("with-context:" if ctx.context else "", opname, who,
+                            what if how == "rows" else "wrong-row-count", qual)
     ctx.col.fail(sig, case, "columns %s: got %r expected %r" % ([f.name for f in bad], got[:4], want[:4]))
     return False
 
 
 def run_guarded(ctx, opname, case, fn, with_origin=True):
     """-> (ok, value). Obs and unexpected exceptions become failures"""
+    if ctx.context:
+        opname = "with-context:" + opname
     try:
         return True, fn()
     except Obs as o:
@@ -631,10 +635,6 @@ def table_ops(sch, n, level, depth):
 TERMINALS = ["int", "iter", "tolist", "todict", "topandas"]
 
 
-def op_kind(op):
-    return op[0] if op[0] != "idx" else "idx"
-
-
 def op_qual(op, node_n, operand_n=None):
     """qualifier in signatures (class of the parameters, never the parameters themselves)"""
     if op[0] == "slice":
@@ -645,9 +645,11 @@ def op_qual(op, node_n, operand_n=None):
     if op[0] == "concat":
         if op[1] == "self":
             return ":self"
+        if node_n == 0:
+            return ":empty-self"
         if op[1] == "emptyslice" or op[2] == 0:
             return ":empty-operand"
-        return ":empty-self" if node_n == 0 else ""
+        return ""
     if op[0] in ("replace", "add"):
         return ":" + str(op[-1]) if op[0] == "replace" else (":typed" if op[3] else ":inferred")
     if op[0] == "rt_tuples":
@@ -666,6 +668,8 @@ class Node:
 
 def fresh(ctx, node):
     t = build(ctx.sch0, ctx.base_rows)
+    if ctx.context:
+        t.set_context("header", "##some header\n")     # what the file readers attach to every chunk
     for st in node.steps:
         t = st(t, {})
     return t
@@ -770,7 +774,7 @@ def apply_op(ctx, node, op):
     case = ctx.case(program)
     name = op[0]
     qual = op_qual(op, n)
-    col.case({"s": sch.name, "base": len(ctx.base_rows), "p": program}, contract=name)
+    col.case({"s": sch.name, "base": len(ctx.base_rows), "p": program, "ctx": ctx.context}, contract=name)
     step, want, new_sch, extra = make_step(node, op)
     ok, t = run_guarded(ctx, "prefix", case, lambda: fresh(ctx, node))
     if not ok:
@@ -823,7 +827,8 @@ def terminal(ctx, node, name, t=None):
     col, sch, rows = ctx.col, node.sch, node.rows
     n = len(rows)
     case = ctx.case(node.path, name)
-    col.case({"s": sch.name, "base": len(ctx.base_rows), "p": node.path, "obs": name}, contract="observe:" + name)
+    col.case({"s": sch.name, "base": len(ctx.base_rows), "p": node.path, "obs": name, "ctx": ctx.context},
+             contract="observe:" + name)
     if t is None:
         ok, t = run_guarded(ctx, "prefix", case, lambda: fresh(ctx, node))
         if not ok:
@@ -931,11 +936,11 @@ def explore(ctx, node, depth, levels, seen):
         explore(ctx, child, depth + 1, levels, seen)
 
 
-def run_programs(col, sch, ns, levels, seen=None):
+def run_programs(col, sch, ns, levels, seen=None, context=False):
     seen = set() if seen is None else seen
     for n in ns:
         rows = make_rows(sch, n)
-        ctx = Ctx(col, sch, rows)
+        ctx = Ctx(col, sch, rows, context)
         case = ctx.case([])
         ok, t = run_guarded(ctx, "construct", case, lambda: build(sch, rows))
         if not ok:
@@ -1202,7 +1207,7 @@ def run(tier="quick", seed=0):
         "primary kind schemas [k:int, v:kind] (int float bool Optional[int] str SequenceID List[int] strand DNA nested)":
             "n=3 and n=0: full x mini, n=1,2: full (depth 1)" if quick else "n=0..3: full x full; n=3, kinds int str SequenceID List[int] strand nested: rep x mini x rep (depth 3)",
         "secondary kind schemas (Union[..,str] List[float] List[bool] quality cigar-op cigar-length BAM-sequence List[str])":
-            "n in {0,1,3}: rep (depth 1)" if quick else "n=0..3: full x rep",
+            "n in {1,3}: rep (depth 1), n=0: rep x mini" if quick else "n=0..3: full x rep",
         "wide (10 kinds) / nested-in-nested / single-column": "n=3: rep x mini (singles: rep), n=0,1: rep" if quick else "n=3: full x rep, n=0..2: rep x mini",
         "bionumpy.datatypes (27 classes; 3 genotype-row classes not modelled)":
             "n=3: rep, n=0: mini (depth 1)" if quick else "n=3: rep x mini, n=0..2: rep",
@@ -1210,6 +1215,7 @@ def run(tier="quick", seed=0):
         "construct": "every schema x n=0..3 x input forms python lists / keyword arguments / library containers / alternative "
                      "containers (tuple, numpy U/S arrays, base-encoded text, list of arrays) / cls.empty(); 12 ill-typed inputs x n in {1,3}; "
                      "one column shorter / longer by 1 in constructor, replace, add_fields",
+        "tables with a context (set_context, as attached by the file readers)": "K_str and Interval, n in {0,1,3}: rep (depth 1)",
         "observation": "after every operation: column containers (class invariant len(column)=len(table)), operands re-read; per node "
                        "t[i] for every i in [-n,n), iteration, tolist/toiter, todict, topandas - each on a table nobody has read before"}
     # 1 datatypes table
@@ -1258,7 +1264,7 @@ def run(tier="quick", seed=0):
         elif sch.name in primary:
             plan = [([3, 0], ("full", "mini")), ([1, 2], ("full",))]
         else:
-            plan = [([0, 1, 3], ("rep",))]
+            plan = [([1, 3], ("rep",)), ([0], ("rep", "mini"))]
         for ns, levels in plan:
             section("%s %r %r" % (sch.name, ns, levels), lambda: run_programs(col, sch, ns, levels))
     for sch in other_schemas():
@@ -1279,6 +1285,8 @@ def run(tier="quick", seed=0):
         for sch in kind_schemas():
             if sch.name in ("K_int", "K_str", "K_sid", "K_li", "K_strand", "K_nested"):
                 section(sch.name + " d3", lambda: run_programs(col, sch, [3], ("rep", "mini", "rep")))
+    for sch in [Sch("K_str", [["k", "int"], ["v", "str"]], None, True), Sch("Interval", DATATYPES["Interval"], datatype="Interval")]:
+        section(sch.name + " with context", lambda: run_programs(col, sch, [0, 1, 3], ("rep",), context=True))
     for sch in kind_schemas() + other_schemas():
         section(sch.name + " sampled", lambda: sample_programs(col, sch, 3, 3, 25 if quick else 200))
     return col.result()
@@ -1298,7 +1306,7 @@ def replay(case):
     else:
         sch = Sch.from_desc(case["schema"])
         rows = case["rows"]
-        ctx = Ctx(col, sch, rows)
+        ctx = Ctx(col, sch, rows, case.get("context", False))
         ok, t = run_guarded(ctx, "construct", ctx.case([]), lambda: build(sch, rows))
         if ok:
             ok, got = run_guarded(ctx, "construct:result", ctx.case([]), lambda: extract(t, sch))
